@@ -41,21 +41,23 @@ vars == <<bits, ops, mode, pos, outs>>
 (* Numbers                                                                 *)
 
 GroupsToLsb(g) == [j \in 1..(7 * Len(g)) |-> (g[((j - 1) \div 7) + 1] \div 2^((j - 1) % 7)) % 2]
-LsbToGroups(s) ==
-    LET t == LsbTrim(s)
-        n == IF t = <<>> THEN 1 ELSE (Len(t) + 6) \div 7
-        u == LsbLow(t, 7 * n)
-    IN  [i \in 1..n |-> LsbToNat(SubSeq(u, 7 * (i - 1) + 1, 7 * i))]
+\* (helper operators take already-computed values as parameters instead of LET:
+\*  TLC evaluates a parameter once, and its -coverage cost model stays linear)
+GroupsOfPadded(u, n) == [i \in 1..n |-> LsbToNat(SubSeq(u, 7 * (i - 1) + 1, 7 * i))]
+GroupsOfTrimmed(t, n) == GroupsOfPadded(LsbLow(t, 7 * n), n)
+NGroups(t) == IF t = <<>> THEN 1 ELSE (Len(t) + 6) \div 7
+LsbToGroupsT(t) == GroupsOfTrimmed(t, NGroups(t))
+LsbToGroups(s) == LsbToGroupsT(LsbTrim(s))
 Canon(g) == LsbToGroups(GroupsToLsb(g))
 NatToGroups(n) == LsbToGroups(NatToLsb(n))
 
 \* zigzag: i >= 0 -> 2i ; i < 0 -> -2i - 1   (on sign/magnitude, any size)
 ZigZag(v) == LsbToGroups(IF v.neg THEN <<1>> \o LsbDec(GroupsToLsb(v.g))
                                   ELSE <<0>> \o GroupsToLsb(v.g))
-UnZigZag(g) ==
-    LET w == GroupsToLsb(g) IN
+UnZigZagW(w) ==
     IF w[1] = 1 THEN [neg |-> TRUE,  g |-> LsbToGroups(LsbInc(Tail(w)))]
                 ELSE [neg |-> FALSE, g |-> LsbToGroups(Tail(w))]
+UnZigZag(g) == UnZigZagW(GroupsToLsb(g))
 \* the same on small TLC integers (used to cross-check the limb version)
 ZigZagSmall(i) == IF i >= 0 THEN 2 * i ELSE (0 - 2 * i) - 1
 
@@ -76,30 +78,30 @@ Utf8(cps) == Flat([i \in 1..Len(cps) |-> Utf8Enc(cps[i])])
 
 Cont(x) == x >= 128 /\ x <= 191
 \* [ok, v]: the code points of a well-formed UTF-8 byte string
-RECURSIVE Utf8DecFrom(_, _)
-Utf8DecFrom(s, i) ==
-    LET n == Len(s)
-        bad == [ok |-> FALSE, v |-> <<>>]
-        more(k, c) == LET t == Utf8DecFrom(s, i + k) IN
-                      IF t.ok THEN [ok |-> TRUE, v |-> <<c>> \o t.v] ELSE bad
-        a == s[i]
-    IN  IF i > n THEN [ok |-> TRUE, v |-> <<>>]
-        ELSE IF a < 128 THEN more(1, a)
-        ELSE IF a >= 194 /\ a <= 223
-             THEN IF i + 1 <= n /\ Cont(s[i + 1]) THEN more(2, (a - 192) * 64 + (s[i + 1] - 128)) ELSE bad
-        ELSE IF a >= 224 /\ a <= 239
-             THEN IF /\ i + 2 <= n /\ Cont(s[i + 1]) /\ Cont(s[i + 2])
-                     /\ (a = 224 => s[i + 1] >= 160)
-                     /\ (a = 237 => s[i + 1] <= 159)
-                  THEN more(3, (a - 224) * 4096 + (s[i + 1] - 128) * 64 + (s[i + 2] - 128)) ELSE bad
-        ELSE IF a >= 240 /\ a <= 244
-             THEN IF /\ i + 3 <= n /\ Cont(s[i + 1]) /\ Cont(s[i + 2]) /\ Cont(s[i + 3])
-                     /\ (a = 240 => s[i + 1] >= 144)
-                     /\ (a = 244 => s[i + 1] <= 143)
-                  THEN more(4, (a - 240) * 262144 + (s[i + 1] - 128) * 4096
-                                 + (s[i + 2] - 128) * 64 + (s[i + 3] - 128)) ELSE bad
-        ELSE bad
-Utf8Dec(s) == Utf8DecFrom(s, 1)
+Utf8Bad == [ok |-> FALSE, v |-> <<>>]
+RECURSIVE Utf8DecFrom(_, _, _), Utf8Step(_, _, _, _, _)
+Utf8DecFrom(s, i, acc) ==
+    IF i > Len(s) THEN [ok |-> TRUE, v |-> acc] ELSE Utf8Step(s, i, acc, s[i], Len(s))
+Utf8Step(s, i, acc, a, n) ==
+    IF a < 128 THEN Utf8DecFrom(s, i + 1, Append(acc, a))
+    ELSE IF a >= 194 /\ a <= 223
+         THEN IF i + 1 <= n /\ Cont(s[i + 1])
+              THEN Utf8DecFrom(s, i + 2, Append(acc, (a - 192) * 64 + (s[i + 1] - 128))) ELSE Utf8Bad
+    ELSE IF a >= 224 /\ a <= 239
+         THEN IF /\ i + 2 <= n /\ Cont(s[i + 1]) /\ Cont(s[i + 2])
+                 /\ (a = 224 => s[i + 1] >= 160)
+                 /\ (a = 237 => s[i + 1] <= 159)
+              THEN Utf8DecFrom(s, i + 3, Append(acc, (a - 224) * 4096 + (s[i + 1] - 128) * 64 + (s[i + 2] - 128)))
+              ELSE Utf8Bad
+    ELSE IF a >= 240 /\ a <= 244
+         THEN IF /\ i + 3 <= n /\ Cont(s[i + 1]) /\ Cont(s[i + 2]) /\ Cont(s[i + 3])
+                 /\ (a = 240 => s[i + 1] >= 144)
+                 /\ (a = 244 => s[i + 1] <= 143)
+              THEN Utf8DecFrom(s, i + 4, Append(acc, (a - 240) * 262144 + (s[i + 1] - 128) * 4096
+                                                       + (s[i + 2] - 128) * 64 + (s[i + 3] - 128)))
+              ELSE Utf8Bad
+    ELSE Utf8Bad
+Utf8Dec(s) == Utf8DecFrom(s, 1, <<>>)
 
 ---------------------------------------------------------------------------
 (* The format, encoder side                                                *)
@@ -113,17 +115,16 @@ FillerAt(off) == LET n == 8 - (off % 8) IN [i \in 1..n |-> IF i = n THEN 1 ELSE 
 
 \* blocks of at most 255 bytes, each preceded by its length; a 0 byte ends the string
 RECURSIVE Blocks(_)
-Blocks(bs) == IF bs = <<>> THEN <<0>>
-              ELSE LET n == MinN(255, Len(bs)) IN
-                   <<n>> \o SubSeq(bs, 1, n) \o Blocks(SubSeq(bs, n + 1, Len(bs)))
+RECURSIVE Block(_, _)
+Blocks(bs) == IF bs = <<>> THEN <<0>> ELSE Block(bs, MinN(255, Len(bs)))
+Block(bs, n) == <<n>> \o SubSeq(bs, 1, n) \o Blocks(SubSeq(bs, n + 1, Len(bs)))
 EncBytesAt(off, bs) == FillerAt(off) \o UnpackBytes(Blocks(bs))
 
-RECURSIVE EncAt(_, _), EncItems(_, _, _)
+RECURSIVE EncAt(_, _), EncItems(_, _, _), EncCons(_, _, _, _)
 \* list: 1 bit before every element, 0 bit at the end
 EncItems(off, of, items) ==
-    IF items = <<>> THEN <<0>>
-    ELSE LET e == EncAt(off + 1, [op |-> of, v |-> Head(items)]) IN
-         <<1>> \o e \o EncItems(off + 1 + Len(e), of, Tail(items))
+    IF items = <<>> THEN <<0>> ELSE EncCons(off, of, items, EncAt(off + 1, [op |-> of, v |-> Head(items)]))
+EncCons(off, of, items, e) == <<1>> \o e \o EncItems(off + 1 + Len(e), of, Tail(items))
 EncAt(off, o) ==
     CASE o.op = "bool"   -> <<IF o.v THEN 1 ELSE 0>>
       [] o.op = "bits"   -> ToBits(o.v, o.n)
@@ -154,69 +155,68 @@ DBits(b, p, n) ==
     ELSE Ok(FromBits(SubSeq(b, p + 1, p + n)), p + n)
 
 \* raw 7-bit groups up to and including the first one without continuation bit
-RECURSIVE DGroups(_, _)
-DGroups(b, p) ==
-    LET r == DBits(b, p, 8) IN
-    IF r.out # "ok" THEN r
-    ELSE IF r.val < 128 THEN Ok(<<r.val>>, r.p)
-    ELSE LET t == DGroups(b, r.p) IN
-         IF t.out # "ok" THEN t ELSE Ok(<<r.val - 128>> \o t.val, t.p)
+RECURSIVE DGroupsAcc(_, _, _)
+DGroupsAcc(b, p, acc) ==
+    IF p + 8 > Len(b)
+    THEN (IF Len(acc) >= 10 THEN AnyOut("overlong-word", p)     \* an 11th group is due: over-long whatever follows
+                            ELSE Err("end-of-buffer", p))
+    ELSE IF b[p + 1] = 0 THEN Ok(Append(acc, FromBits(SubSeq(b, p + 2, p + 8))), p + 8)
+    ELSE DGroupsAcc(b, p + 8, Append(acc, FromBits(SubSeq(b, p + 2, p + 8))))
+DGroups(b, p) == DGroupsAcc(b, p, <<>>)
 
-DWord(b, p) ==
-    LET r == DGroups(b, p) IN
-    IF r.out # "ok" THEN r
-    ELSE IF Overlong(r.val) THEN AnyOut("overlong-word", r.p)
-    ELSE Ok(Canon(r.val), r.p)
+WordOf(r) == IF r.out # "ok" THEN r
+             ELSE IF Overlong(r.val) THEN AnyOut("overlong-word", r.p)
+             ELSE Ok(Canon(r.val), r.p)
+DWord(b, p) == WordOf(DGroups(b, p))
 
-DInt(b, p) == LET r == DWord(b, p) IN IF r.out # "ok" THEN r ELSE Ok(UnZigZag(r.val), r.p)
+IntOf(r) == IF r.out # "ok" THEN r ELSE Ok(UnZigZag(r.val), r.p)
+DInt(b, p) == IntOf(DWord(b, p))
 
 \* the decoder keeps the low 32 bits of the word and accepts Unicode scalar values
-DChar(b, p) ==
-    LET r == DWord(b, p) IN
-    IF r.out # "ok" THEN r
-    ELSE LET w == LsbLow(GroupsToLsb(r.val), 32) IN
-         IF ~LsbIsZero(SubSeq(w, 22, 32)) THEN Err("bad-char", r.p)
-         ELSE LET c == LsbToNat(SubSeq(w, 1, 21)) IN
-              IF IsScalar(c) THEN Ok(c, r.p) ELSE Err("bad-char", r.p)
+CharOfCp(c, p) == IF IsScalar(c) THEN Ok(c, p) ELSE Err("bad-char", p)
+CharOfLow(w, p) == IF ~LsbIsZero(SubSeq(w, 22, 32)) THEN Err("bad-char", p)
+                   ELSE CharOfCp(LsbToNat(SubSeq(w, 1, 21)), p)
+CharOf(r) == IF r.out # "ok" THEN r ELSE CharOfLow(LsbLow(GroupsToLsb(r.val), 32), r.p)
+DChar(b, p) == CharOf(DWord(b, p))
 
 \* zero bits up to and including the first 1 bit
 RECURSIVE DFiller(_, _)
 DFiller(b, p) ==
-    LET r == DBit(b, p) IN
-    IF r.out # "ok" THEN r ELSE IF r.val = 1 THEN Ok(0, r.p) ELSE DFiller(b, r.p)
+    IF p >= Len(b) THEN Err("end-of-buffer", p)
+    ELSE IF b[p + 1] = 1 THEN Ok(0, p + 1) ELSE DFiller(b, p + 1)
 
-\* p is a multiple of 8; n is the length byte just read
-RECURSIVE DBlk(_, _, _)
-DBlk(b, p, n) ==
-    IF n = 0 THEN Ok(<<>>, p)
+\* p is a multiple of 8, just after the length byte n; acc = bytes of the earlier blocks
+RECURSIVE DBlk(_, _, _, _)
+DBlk(b, p, n, acc) ==
+    IF n = 0 THEN Ok(acc, p)
     ELSE IF p + 8 * (n + 1) > Len(b) THEN Err("end-of-buffer", p)
-    ELSE LET k == p \div 8
-             t == DBlk(b, p + 8 * (n + 1), ByteAt(b, k + n + 1))
-         IN  IF t.out # "ok" THEN t ELSE Ok([i \in 1..n |-> ByteAt(b, k + i)] \o t.val, t.p)
+    ELSE DBlk(b, p + 8 * (n + 1), ByteAt(b, (p \div 8) + n + 1),
+              acc \o [i \in 1..n |-> ByteAt(b, (p \div 8) + i)])
 
-DBytes(b, p) ==
-    LET f == DFiller(b, p) IN
+BytesAfter(b, f) ==
     IF f.out # "ok" THEN f
     ELSE IF f.p % 8 # 0 THEN Err("not-aligned", f.p)
     ELSE IF f.p + 8 > Len(b) THEN Err("end-of-buffer", f.p)
-    ELSE DBlk(b, f.p + 8, ByteAt(b, (f.p \div 8) + 1))
+    ELSE DBlk(b, f.p + 8, ByteAt(b, (f.p \div 8) + 1), <<>>)
+DBytes(b, p) == BytesAfter(b, DFiller(b, p))
 
-DUtf8(b, p) ==
-    LET r == DBytes(b, p) IN
-    IF r.out # "ok" THEN r
-    ELSE LET u == Utf8Dec(r.val) IN IF u.ok THEN Ok(u.v, r.p) ELSE Err("bad-utf8", r.p)
+Utf8Res(u, p) == IF u.ok THEN Ok(u.v, p) ELSE Err("bad-utf8", p)
+Utf8Of(r) == IF r.out # "ok" THEN r ELSE Utf8Res(Utf8Dec(r.val), r.p)
+DUtf8(b, p) == Utf8Of(DBytes(b, p))
 
-RECURSIVE DecAt(_, _, _), DItems(_, _, _)
-DItems(b, p, of) ==
-    LET c == DBit(b, p) IN
-    IF c.out # "ok" THEN c
-    ELSE IF c.val = 0 THEN Ok(<<>>, c.p)
-    ELSE LET x == DecAt(b, c.p, [op |-> of]) IN
-         IF x.out # "ok" THEN x
-         ELSE LET t == DItems(b, x.p, of) IN
-              IF t.out # "ok" THEN t ELSE Ok(<<x.val>> \o t.val, t.p)
+BoolOf(r) == IF r.out # "ok" THEN r ELSE Ok(r.val = 1, r.p)
+TopFill(r, f) == IF f.out # "ok" THEN f ELSE Ok(r.val, f.p)
+TopThen(b, r) == IF r.out # "ok" THEN r ELSE TopFill(r, DFiller(b, r.p))
+
+RECURSIVE DecAt(_, _, _), DItems(_, _, _, _), ItemThen(_, _, _, _)
+\* 1 bit before every element, 0 bit ends the list; acc = elements read so far
+DItems(b, p, of, acc) ==
+    IF p >= Len(b) THEN Err("end-of-buffer", p)
+    ELSE IF b[p + 1] = 0 THEN Ok(acc, p + 1)
+    ELSE ItemThen(b, of, acc, DecAt(b, p + 1, [op |-> of]))
+ItemThen(b, of, acc, x) == IF x.out # "ok" THEN x ELSE DItems(b, x.p, of, Append(acc, x.val))
 DecAt(b, p, c) ==
-    CASE c.op = "bool"   -> (LET r == DBit(b, p) IN IF r.out # "ok" THEN r ELSE Ok(r.val = 1, r.p))
+    CASE c.op = "bool"   -> BoolOf(DBit(b, p))
       [] c.op = "bits"   -> DBits(b, p, c.n)
       [] c.op = "u8"     -> DBits(b, p, 8)
       [] c.op = "word"   -> DWord(b, p)
@@ -224,14 +224,11 @@ DecAt(b, p, c) ==
       [] c.op = "char"   -> DChar(b, p)
       [] c.op = "bytes"  -> DBytes(b, p)
       [] c.op = "utf8"   -> DUtf8(b, p)
-      [] c.op = "string" -> DItems(b, p, "char")
-      [] c.op = "list"   -> DItems(b, p, c.of)
+      [] c.op = "string" -> DItems(b, p, "char", <<>>)
+      [] c.op = "list"   -> DItems(b, p, c.of, <<>>)
       [] c.op = "filler" -> DFiller(b, p)
       \* flat::decode::<T>: a value followed by the filler
-      [] c.op = "top"    -> (LET r == DecAt(b, p, [op |-> c.of]) IN
-                             IF r.out # "ok" THEN r
-                             ELSE LET f == DFiller(b, r.p) IN
-                                  IF f.out # "ok" THEN f ELSE Ok(r.val, f.p))
+      [] c.op = "top"    -> TopThen(b, DecAt(b, p, [op |-> c.of]))
 
 ---------------------------------------------------------------------------
 (* State machine                                                           *)
@@ -251,17 +248,17 @@ Write(o) ==
 Offered(k) == { i \in DOMAIN Alphabet : Alphabet[i].op = k }
 
 \* Encoder::bool / bits / u8 / word / integer / char / bytes / utf8 / string / encode_list_with / filler
-WBool   == \E i \in Offered("bool")   : Write(Alphabet[i])
-WBits   == \E i \in Offered("bits")   : Write(Alphabet[i])
-WU8     == \E i \in Offered("u8")     : Write(Alphabet[i])
-WWord   == \E i \in Offered("word")   : Write(Alphabet[i])
-WInt    == \E i \in Offered("int")    : Write(Alphabet[i])
-WChar   == \E i \in Offered("char")   : Write(Alphabet[i])
-WBytes  == \E i \in Offered("bytes")  : Write(Alphabet[i])
-WUtf8   == \E i \in Offered("utf8")   : Write(Alphabet[i])
-WString == \E i \in Offered("string") : Write(Alphabet[i])
-WList   == \E i \in Offered("list")   : Write(Alphabet[i])
-WFiller == \E i \in Offered("filler") : Write(Alphabet[i])
+WBool   == mode = "enc" /\ \E i \in Offered("bool")   : Write(Alphabet[i])
+WBits   == mode = "enc" /\ \E i \in Offered("bits")   : Write(Alphabet[i])
+WU8     == mode = "enc" /\ \E i \in Offered("u8")     : Write(Alphabet[i])
+WWord   == mode = "enc" /\ \E i \in Offered("word")   : Write(Alphabet[i])
+WInt    == mode = "enc" /\ \E i \in Offered("int")    : Write(Alphabet[i])
+WChar   == mode = "enc" /\ \E i \in Offered("char")   : Write(Alphabet[i])
+WBytes  == mode = "enc" /\ \E i \in Offered("bytes")  : Write(Alphabet[i])
+WUtf8   == mode = "enc" /\ \E i \in Offered("utf8")   : Write(Alphabet[i])
+WString == mode = "enc" /\ \E i \in Offered("string") : Write(Alphabet[i])
+WList   == mode = "enc" /\ \E i \in Offered("list")   : Write(Alphabet[i])
+WFiller == mode = "enc" /\ \E i \in Offered("filler") : Write(Alphabet[i])
 
 \* the terminating filler (flat::encode); the buffer is complete, decoding starts
 Finish ==
@@ -275,12 +272,11 @@ Offer == IF Follow
          THEN (IF Len(outs) < Len(ops) THEN <<ops[Len(outs) + 1]>> ELSE <<>>)
          ELSE (IF MoreCalls(outs) THEN Calls ELSE <<>>)
 
-Read(c) ==
-    /\ mode = "dec"
-    /\ LET r == DecAt(bits, pos, c) IN
-         /\ outs' = Append(outs, [c |-> c, out |-> r.out, val |-> r.val, p |-> r.p, class |-> r.class])
-         /\ IF r.out = "any" THEN pos' \in pos..r.p ELSE pos' = r.p
+ReadWith(c, r) ==
+    /\ outs' = Append(outs, [c |-> c, out |-> r.out, val |-> r.val, p |-> r.p, class |-> r.class])
+    /\ IF r.out = "any" THEN pos' \in pos..r.p ELSE pos' = r.p
     /\ UNCHANGED <<bits, ops, mode>>
+Read(c) == mode = "dec" /\ ReadWith(c, DecAt(bits, pos, c))
 
 OfferedCall(k) == { i \in DOMAIN Offer : Offer[i].op = k }
 
